@@ -226,8 +226,8 @@ PROPS = {
     },
     "C26": {
         "level": "proof",
-        "level_text": "Proof for all inputs of the fixed-width encoders (all pairs of i64, of f64 bit patterns, dates, times, timestamps, timestamptz, intervals, uuids, macaddrs, enums, bools): key order == value order, injectivity, decode(encode(x) ++ anything) == x, documented prefix ranking across types, shared ZERO key as the only int/float collision. TEXT/BLOB escape codec: bounded Kani twin (len<=3) in this unit; unbounded Verus proof is a separate unit.",
-        "level_note": "Trusted: Kani/CBMC; the Vec/SmallVec impls of KeyBuffer (harness supplies a fixed-array KeyBuffer to the real generic encoders); Rust slice Ord as the meaning of bytewise comparison. Nested array/tuple/range/json encoders are not covered.",
+        "level_text": "Proof for all inputs of the fixed-width encoders (all pairs of i64, of f64 bit patterns, dates, times, timestamps, timestamptz, intervals, uuids, macaddrs, enums, bools): key order == value order, injectivity, decode(encode(x) ++ anything) == x, documented prefix ranking across types, shared ZERO key as the only int/float collision; Database::encode_value_as_key (what the engine writes) equals these encoders for every scalar variant. TEXT/BLOB escape codec for byte strings of ANY length (Verus, functions extracted from /repo each run): encoder == esc spec, decoder == spec parser, decode∘encode = id with any suffix, and s <lex t ==> esc(s)+x <lex esc(t)+y for all suffixes (composite keys compare column by column). Kani twins of the codec at bounded length run alongside.",
+        "level_note": "Trusted: Kani/CBMC, Verus/Z3; the Vec/SmallVec impls of KeyBuffer (harness supplies a fixed-array KeyBuffer; Verus assumes the trait contract); Rust slice Ord as the meaning of bytewise comparison; prelude bail!/ensure! macros in the Verus unit. Open known finding: TIMESTAMPTZ offset truncated to i16 in encode_value_as_key. Nested array/tuple/range/json/vector encoders, Decimal-through-f64 and the blob-encoded variants of encode_value_as_key are not covered.",
         "technique": "Kani full-domain Hoare triples on the real generic encoders/decoder + Verus loop-invariant proof of the escape codec on mechanically extracted functions",
         "kani_units": ["key", "dbkey"],
         "verus_units": ["key_escape"],
@@ -236,15 +236,15 @@ PROPS = {
     },
     "C33": {
         "level": "proof",
-        "level_text": "Proof for all payloads of every fixed-width Value variant (Int, Float incl. NaN/inf/±0, Null, Uuid, MacAddr, Inet4/6, TimestampTz, Interval, Enum, Decimal, Point, GeoBox, Circle): deserialize(serialize(v) ++ anything) returns the same variant and payload and consumes exactly value_size(v) == bytes written. Variable-length variants and row framing/sequence are bounded stand-ins (len<=2, rows of <=2 columns, 2 rows).",
-        "level_note": "Trusted: Kani/CBMC; alloc::vec::Vec and SmallVec as compiled by Kani (executed, not assumed). Bounded: Text/Blob/Jsonb/Vector/ToastPointer payload length <= 2; rows <= 2 columns; `row.len() as u16` truncation above 65535 columns not covered.",
+        "level_text": "Proof for all payloads of every fixed-width Value variant (Int, Float incl. NaN/inf/±0, Null, Uuid, MacAddr, Inet4/6, TimestampTz, Interval, Enum, Decimal, Point, GeoBox, Circle): deserialize(serialize(v) ++ anything) returns the same variant and payload and consumes exactly value_size(v) == bytes written; the decoder is total on arbitrary bytes behind every fixed-width discriminant. Bounded stand-ins: Vector of 0..2 elements; two rows per buffer with (1,0) columns (cursor advances by exactly row_size, also over an empty row). Text/Blob/Jsonb/ToastPointer payloads and 2-column row sequences are written down but tier=manual (Vec/SmallVec/String decoding exceeded 40 min or 24 GB in CBMC).",
+        "level_note": "Trusted: Kani/CBMC; alloc::vec::Vec and SmallVec as compiled by Kani (executed, not assumed). Variable-length byte/text payloads are NOT decided by any registered command; `row.len() as u16` truncation above 65535 columns not covered. One defect found here was repaired (Float(0.0) came back as Int(0)).",
         "technique": "Kani full-domain Hoare triples on the real RowSerde functions (per-variant round-trip + size contract), bounded harnesses for variable-length payloads and row sequences",
         "kani_units": ["row_serde"],
         "explanation": "",
     },
     "C41": {
         "level": "proof",
-        "level_text": "Proof for every valid date of years 1..9999 that each internal calendar converter (date functions' date_to_days, DEFAULT parser's days_from_ymd, literal parser's date_to_days_since_epoch) satisfies anchor + successor rule of the proleptic Gregorian calendar, hence all equal the civil day number and agree with each other; days_to_date inverts date_to_days; leap/month-length helpers (which decide rejection of invalid days) match the rule. Text parsing/rendering and TIME arithmetic are not covered (partial).",
+        "level_text": "Proof for every valid date of years 1..9999 that each internal calendar converter (date functions' date_to_days, DEFAULT parser's days_from_ymd, literal parser's date_to_days_since_epoch) satisfies anchor + successor rule of the proleptic Gregorian calendar, hence all equal the civil day number and agree with each other (literal converter: Verus on the extracted function, year loop unbounded; a Kani twin at the century years runs alongside); days_to_date inverts date_to_days; leap/month-length helpers (which decide rejection of invalid days) match the rule. Text parsing/rendering and TIME arithmetic are not covered (partial).",
         "level_note": "Trusted: Kani/CBMC (kissat for the partitioned inverse). The induction over days from the anchor is a meta-argument stated in contracts/kani/_calendar_oracle.rs. Not covered: string splitting/number parsing in parse_date/parse_time/parse_timestamp, canonical rendering, the inline JDN arithmetic in CompiledPredicate::parse_date.",
         "technique": "Kani full-domain Hoare triples (anchor + successor induction step) on the real calendar kernels; year loop closed by unwind bound derived from the precondition",
         "kani_units": ["datetime", "constraints", "literal"],
@@ -270,7 +270,7 @@ PROPS = {
     },
     "C15": {
         "level": "proof",
-        "level_text": "Proof for the three sort comparators (SortExecutor::compare_values, Value::compare_for_sort, compare_owned_values) over all Int/Float/NULL (and Bool/Date/Time/Timestamp) key values of one type per key: NULL before every non-NULL value, numeric order inside a type, antisymmetric and transitive (a total preorder, the precondition under which sort_by yields the ORDER BY order). Inductive step contract of LimitExecutor::next over an arbitrary executor state: the emitted sequence is exactly rows [offset, offset+limit). Partial: DISTINCT, sort direction at the call-site closures, Text/Blob keys (delegated to Ord for str/[u8]), the inline Limit arm of DynamicExecutor and the sort driver are not covered.",
+        "level_text": "Proof for the three sort comparators (SortExecutor::compare_values, Value::compare_for_sort, compare_owned_values) over all Int/Float/NULL (and Bool/Date/Time/Timestamp) key values of one type per key: NULL before every non-NULL value, numeric order inside a type, antisymmetric and transitive (a total preorder, the precondition under which sort_by yields the ORDER BY order); for sort-key arithmetic (eval_binary_op_standalone: + and - over every Int/Float operand combination, operands in the written order); and an inductive step contract of LimitExecutor::next over an arbitrary executor state: the emitted sequence is exactly rows [offset, offset+limit). Partial: DISTINCT, sort direction at the call-site closures, Text/Blob keys (delegated to Ord for str/[u8]), the inline Limit arm of DynamicExecutor and the sort driver are not covered.",
         "level_note": "Partial. Open known findings: mixed Int/Float sort keys (SortExecutor returns Equal; `as f64` coercion is not transitive above 2^53). Trusted: slice::sort_by sorts correctly given a total preorder; str/[u8] Ord.",
         "technique": "Kani full-domain Hoare triples on the real comparators (order axioms) + inductive step contract for LimitExecutor::next against a harness-side child executor",
         "kani_units": ["sort_cmp", "value_cmp", "owned_cmp"],
@@ -278,7 +278,7 @@ PROPS = {
     },
     "C14": {
         "level": "proof",
-        "level_text": "Proof for the value-level kernels of the WHERE evaluator (CompiledPredicate::compare_values, eval_binary_op AND/OR, eval_unary_op NOT): for every Int/Float/NULL operand pair and all six comparison operators the kernel answers true iff the comparison is TRUE under SQL three-valued logic; AND/OR/NOT results are TRUE exactly when Kleene logic says TRUE. Expression-tree evaluation (eval_expr) only as a bounded stand-in over literal trees. Partial: IN lists, BETWEEN, LIKE, text comparison, column lookup, the optimizer's pushdown and which evaluator a query uses are not covered.",
+        "level_text": "Proof for the value-level kernels of the WHERE evaluator (CompiledPredicate::compare_values, eval_binary_op AND/OR, eval_unary_op NOT): for every Int/Float/NULL operand pair and all six comparison operators the kernel answers true iff the comparison is TRUE under SQL three-valued logic (minus the known NULL = NULL class); AND/OR/NOT results are TRUE exactly when Kleene logic says TRUE. Bounded stand-ins on literal expression trees: eval_expr over AND/OR of boolean literals; IS [NOT] NULL over NULL, TRUE and the computed operand NULL + TRUE through eval_value and eval_expr. Partial: IN lists, BETWEEN, LIKE, text comparison, column lookup, the optimizer's pushdown and which evaluator a query uses are not covered.",
         "level_note": "Partial. Open known findings: NULL = NULL is TRUE; AND/OR return 0 instead of NULL for UNKNOWN; eval_expr has no NOT arm (answers true). Int/Float comparison uses the engine's `as f64` coercion (exact comparison above 2^53 is not demanded). Trusted: CompiledPredicate::new as compiled by Kani (hashbrown map construction), never dropped.",
         "technique": "Kani full-domain Hoare triples on the real comparison/connective kernels against literal Kleene truth tables; bounded enumeration of literal expression trees for eval_expr",
         "kani_units": ["predicate"],
@@ -286,7 +286,7 @@ PROPS = {
     },
     "C20": {
         "level": "proof",
-        "level_text": "Proof for the calendar kernels of the date functions (shared with C41: date_to_days / days_to_date / day_of_week / day_of_year / leap and month-length rules follow the proleptic Gregorian calendar for every date of years 1..9999) and for integer arithmetic in the expression evaluator (CompiledPredicate::eval_binary_op +,-,*,/,%,<<,>> and unary minus over all i64 pairs: exact result when representable, NULL on division by zero, NULL in => NULL out). Partial: string functions, floating-point functions, CAST, control flow and text rendering are not covered.",
+        "level_text": "Proof for the calendar kernels of the date functions (shared with C41: date_to_days / days_to_date / day_of_week / day_of_year / leap and month-length rules follow the proleptic Gregorian calendar for every date of years 1..9999) and for integer arithmetic in both expression evaluators (CompiledPredicate::eval_binary_op and OwnedValue::eval_arithmetic): +, -, * over all i64 pairs whose result is an i64 are exact (oracle: checked_*), division and modulo by zero yield NULL for every dividend, NULL in => NULL out, shifts and unary minus. Partial: the quotient/remainder VALUE for non-zero divisors is tier=manual (64-bit division equivalence did not finish in 40 min); string functions, floating-point functions, CAST, control flow and text rendering are not covered.",
         "level_note": "Partial. Open known finding: integer overflow (a+b, a-b, a*b, i64::MIN / -1, i64::MIN % -1, pow) panics in debug builds / wraps in release instead of reporting an error. str-level reasoning is outside both back ends.",
         "technique": "Kani full-domain Hoare triples on the real arithmetic and calendar kernels",
         "kani_units": ["predicate", "datetime", "owned_arith"],
@@ -305,8 +305,8 @@ PROPS = {
     },
     "C23": {
         "level": "proof",
-        "level_text": "Proof (complete over the input bytes) that the fixed-size decoders return a value or an error and never panic, overflow or read out of bounds: decode_varint on every byte string; the three file-header decoders on any 0..160 bytes; PageHeader::from_bytes / validate_page on any bytes of any length up to a page; LeafNode::{from_page, slot_at, key_at, value_at, value_len_at} on ANY 16 KiB of page bytes and any index; decode_key for every non-recursive prefix on any 0..24 bytes; RowSerde::deserialize_value for every fixed-width discriminant. Partial: JSONB, array, catalog, WAL-frame and HNSW decoders, RecordView getters, recursive decode_key arms and opening corrupted database files are not covered.",
-        "level_note": "Partial. Open known finding: slot_at slices beyond the page when cell_count is corrupted. Recursive/variable-length decoders are bounded stand-ins where present. File-system level clause (opening a corrupted database) is outside this technique.",
+        "level_text": "Proof (complete over the input bytes) that the fixed-size decoders return a value or an error and never panic, overflow or read out of bounds: decode_varint on every byte string; the three file-header decoders on any 0..160 bytes; PageHeader::from_bytes / validate_page on any bytes of any length up to a page; decode_key behind every non-recursive known prefix (and 11 representative unknown prefix bytes) on any 0..24 bytes; RowSerde::deserialize_value for every fixed-width discriminant. Bounded (same source compiled with PAGE_SIZE = 256): LeafNode::{from_page, slot_at, key_at, value_at, value_len_at} and InteriorNode::{from_page, slot_at, key_at} on ANY page bytes and any index. Partial: JSONB, array, catalog, WAL-frame and HNSW decoders, recursive decode_key arms, InteriorNode::find_child and opening corrupted database files are not covered; RecordView getters are an open known finding.",
+        "level_note": "Partial. Two defects found by these obligations were repaired (slot_at bound, value_at length overflow); one is open (RecordView getters panic on short records). Obligations that exceeded the machine budget are tier=manual and in no registered command (find_child, nested decode_key patterns). The file-system level clause (opening a corrupted database) is outside this technique.",
         "technique": "Kani Hoare triples over fully symbolic input bytes (and symbolic length / index) on the real decoders; Kani's bounds, overflow and unwrap checks are the postcondition",
         "kani_units": ["varint", "key", "row_serde", "headers", "page", "leaf", "interior", "view"],
         "harness_timeout": 900,
